@@ -107,7 +107,9 @@ Definition b_store_address (b : builder) (a : addr) : result builder :=
       (* ExternalAddress.to_cell() then store_cell *)
       bind (b_store_bits b_empty [false; true]) (fun t1 =>
       bind (b_store_uint t1 len 9) (fun t2 =>
-      bind (b_store_uint t2 v len) (fun t3 =>
+      (* if self.len: store_uint(value, len) / elif value: raise OverflowError *)
+      bind (if negb (len =? 0) then b_store_uint t2 v len
+            else if negb (v =? 0) then Err EOverflow else Ok t2) (fun t3 =>
       bind (b_end_cell t3) (fun c => b_store_cell b c))))
   | AddrStd ac wc h =>
       bind (match ac with
@@ -175,7 +177,9 @@ Definition s_load_address (s : slice) : result (addr * slice) :=
   if tag =? 0 then Ok (AddrNone, s1)
   else if tag =? 1 then
     bind (s_load_uint s1 9) (fun '(len, s2) =>
-    bind (s_load_uint s2 (Z.to_nat len)) (fun '(v, s3) => Ok (AddrExt v len, s3)))
+    (* ExternalAddress(self.load_uint(len_) if len_ else 0, len_) *)
+    bind (if negb (len =? 0) then s_load_uint s2 (Z.to_nat len) else Ok (0, s2))
+         (fun '(v, s3) => Ok (AddrExt v len, s3)))
   else
     bind (s_load_bit s1) (fun '(anyc, s2) =>
     bind (if anyc then
